@@ -696,6 +696,18 @@ pub fn run_scenario(req: &Value) -> Value {
 			"nonces_issued": st.nonces.len(),
 		}));
 	}
+	if let Some(pats) = req.get("stat").and_then(|v| v.as_array()) {
+		let mut col = serde_json::Map::new();
+		for p in pats.iter().filter_map(|x| x.as_str()) {
+			if let Ok(g) = glob::glob(&format!("{dir}/{p}")) {
+				for f in g.filter_map(Result::ok) {
+					let rel = f.strip_prefix(&dir).map(|x| x.display().to_string()).unwrap_or_default();
+					col.insert(rel, file_info(&f));
+				}
+			}
+		}
+		out["stat"] = Value::Object(col);
+	}
 	if let Some(pats) = req.get("collect").and_then(|v| v.as_array()) {
 		let mut col = serde_json::Map::new();
 		for p in pats.iter().filter_map(|x| x.as_str()) {
